@@ -1,6 +1,7 @@
 // C17 -- token_groups_to_sparse_coo_matrix: one entry per token, every index inside the declared size
 use vstd::prelude::*;
 verus! {
+//@include specs/std_extra.rs
 //@include specs/err.rs
 
 // ---------------------------------------------------------------- trusted prelude
